@@ -23,6 +23,7 @@ type lruStep struct {
 	Created  bool  `json:"created"`
 	Evicted  []int `json:"evicted"`
 	Resident int   `json:"resident"`
+	Purge    bool  `json:"purge"`
 }
 
 // LRU drives a real dispatcher of each size with the access sequence of the case
@@ -59,16 +60,25 @@ func LRU(w *world.World, raws []json.RawMessage) ([]interface{}, error) {
 		limits, _ := cache.VerifShards(d)
 		steps := make([]lruStep, 0, len(c.Keys))
 		for _, k := range c.Keys {
+			purge := k < 0
+			if purge {
+				k = -k
+			}
 			key := []byte(fmt.Sprintf("GET h /lru/%d", k))
 			created = false
 			evicted = []int{}
-			_ = d.GetHTTPCache(key)
+			if purge {
+				// a purge of the key (resident or not)
+				d.RemoveHTTPCache(key)
+			} else {
+				_ = d.GetHTTPCache(key)
+			}
 			_, lens := cache.VerifShards(d)
 			total := 0
 			for _, n := range lens {
 				total += n
 			}
-			steps = append(steps, lruStep{Key: k, Shard: cache.VerifShardIndex(d, key), Created: created, Evicted: evicted, Resident: total})
+			steps = append(steps, lruStep{Key: k, Shard: cache.VerifShardIndex(d, key), Created: created, Evicted: evicted, Resident: total, Purge: purge})
 		}
 		w.Tap = nil
 		out = append(out, map[string]interface{}{"case": raw, "nshards": len(limits), "limits": limits, "steps": steps})
